@@ -35,6 +35,7 @@ func (e *ErrUnknownIdentifier) Error() string {
 type compiler struct {
 	ctx     hctx.Context
 	program *ast.Program
+	source  string // the text of the template that program was parsed from
 	curStmt ast.Statement
 	inCheck bool
 	// exec stands for the execution (Template.Exec) this evaluator is part of
@@ -359,7 +360,7 @@ func (c *compiler) evalUserFunction(node *userFunction, args []ast.Expression) (
 	caller := c.curStmt
 	res, err := c.evalBlockStatement(node.block)
 	if err != nil {
-		if node.program != c.program {
+		if node.source != c.source {
 			// the function was written in another template (the one that
 			// includes this partial, an earlier render with the same
 			// context): the lines of its body count there; here the
@@ -402,7 +403,7 @@ func flattenReturn(ro returnObject, vals []interface{}) []interface{} {
 func (c *compiler) evalFunctionLiteral(node *ast.FunctionLiteral) (interface{}, error) {
 	params := node.Parameters
 	block := node.Block
-	return &userFunction{parameters: params, block: block, program: c.program}, nil
+	return &userFunction{parameters: params, block: block, source: c.source}, nil
 }
 
 func (c *compiler) evalPrefixExpression(node *ast.PrefixExpression) (interface{}, error) {
